@@ -236,6 +236,13 @@ fn leaves() -> Vec<(String, tir::Expression)> {
         ("Assets-amount-is-assets".into(), tirb::assets(vec![tir::AssetExpr { policy: E::None, asset_name: E::None, amount: tirb::assets(vec![tirb::lovelace(5)]) }])),
         ("Assets-amount-is-bytes".into(), tirb::assets(vec![tir::AssetExpr { policy: E::None, asset_name: E::None, amount: E::Bytes(vec![1]) }])),
         ("Assets-policy-is-number".into(), tirb::assets(vec![tir::AssetExpr { policy: E::Number(1), asset_name: E::Number(2), amount: E::Number(3) }])),
+        // one asset class listed twice: each entry fits the ledger's field, the sum does not (or cancels)
+        ("Assets-lovelace-twice-sum-over-u64".into(), tirb::assets(vec![tirb::lovelace(1 << 63), tirb::lovelace(1 << 63)])),
+        ("Assets-token-twice-sum-over-u64".into(), tirb::assets(vec![tirb::token(&[7; 28], b"T", 1 << 63), tirb::token(&[7; 28], b"T", 1 << 63)])),
+        ("Assets-lovelace-twice-sum-over-i64".into(), tirb::assets(vec![tirb::lovelace((1 << 62) + 1), tirb::lovelace(1 << 62)])),
+        ("Assets-lovelace-twice-sum-over-i128".into(), tirb::assets(vec![tirb::lovelace(i128::MAX), tirb::lovelace(i128::MAX)])),
+        ("Assets-lovelace-twice-cancelling".into(), tirb::assets(vec![tirb::lovelace(5), tirb::lovelace(-5)])),
+        ("Assets-token-twice-cancelling".into(), tirb::assets(vec![tirb::lovelace(2_000_000), tirb::token(&[7; 28], b"T", 5), tirb::token(&[7; 28], b"T", -5)])),
         ("Struct".into(), E::Struct(tir::StructExpr { constructor: 200, fields: vec![E::Number(1)] })),
         ("Map".into(), E::Map(vec![(E::Number(1), E::Number(2))])),
     ];
@@ -309,7 +316,7 @@ impl Prop for C14 {
         format!(
             "IR level: every tirgen tree ({} contexts{} x 5 probes x {} placements) x every value of the probe's boundary alphabet (37 integers, byte / \
              address lengths {}, utxo-ref txid lengths, 9 wrong-typed values) x 5 stores (one of sibling outputs of one transaction; the k-th query gets two UTxOs starting at the k-th) x 6 protocol-parameter sets (full product of alphabet with the \
-             default store/pparams; stores x pparams with the default value). Constants of every kind and of sizes around 28 / 29 / 32 / 57 bytes in each of the 19 fields and in every key of every chain-specific directive; every directive with every subset of its keys present; signers and reference lists of every sequence of length <= 4 over three items (repeats in every position); chains of 8 .. 64 operations over an input / a parameter that is not known yet; two-level trees whose outer context computes with its operand. Language level: every tx of the corpus x every parameter x its boundary \
+             default store/pparams; stores x pparams with the default value). Constants of every kind (asset lists naming one class twice - overflowing and cancelling sums - among them) and of sizes around 28 / 29 / 32 / 57 bytes in each of the 19 fields and in every key of every chain-specific directive; every directive with every subset of its keys present; signers and reference lists of every sequence of length <= 4 over three items (repeats in every position); chains of 8 .. 64 operations over an input / a parameter that is not known yet; two-level trees whose outer context computes with its operand. Language level: every tx of the corpus x every parameter x its boundary \
              alphabet (one non-default argument at a time{}) x stores x pparams. Each combination is driven through resolve_tx and through \
              apply_args / apply_fees / reduce / compiler ops / apply_inputs / reduce / compile (continuing after errors) and a second round of compiler ops / compile on the same instance; every template also with its outputs removed and with every output optional and empty. Oracle: every call returns \
              Ok or Err. Non-trivial = at least one back-end call executed; distinct = (subject, argument, store, pparams).",
